@@ -136,6 +136,9 @@ func TestDrive(t *testing.T) {
 	case "idtoken":
 		e.Exec = pureExec
 		IDTokenCases(e, r, tier)
+	case "authz":
+		e.Exec = pureExec
+		AuthzCases(e, r, tier)
 	case "hist":
 		nh := envInt("FZ_HISTORIES", 40)
 		if tier == "thorough" {
@@ -173,6 +176,8 @@ func execPure(f []string) string {
 		return execClientAuth(f)
 	case "idtoken":
 		return execIDToken(f)
+	case "authz":
+		return execAuthz(f)
 	}
 	return "bad-op"
 }
